@@ -193,24 +193,31 @@ def eq_rule(ctx, R1, mod=None, M=None):
 
 
 
-def run(ctx, report):
-    mod = ctx.mod('expression')
-    hlp = ctx.mod('expr_helper')
-    M = Matrix(mod)
-    report.explanation = (
-        'Field/method matrix over the 8 IR node classes of expression.py: D1 __hash__ fields are a subset of __eq__ fields, '
-        '__eq__ compares every constructor field (metadata table excepted) pairwise with the same field of the other operand and '
-        'tests the class, __ne__ is its negation; D2 copy() and visit() rebuild from all fields, recurse into every '
-        'sub-expression field, copy() never returns self, every visit is wrapped by visit_chk; D3 replace_expr/copy go through visit; '
-        'D4 every operand-reordering call site is control-dependent on membership in a list of commutative operators.')
-    report.not_decided = 'value preservation for concrete valuations (behaviour of the callbacks), sharing inside non-node containers.'
-    report.analysed['matrix'] = dict((c, {'fields': M.fields[c], 'expr_fields': M.expr_fields(c), 'eq_fields': M.eq_fields(c)})
-                                     for c in NODE_CLASSES)
+class _Filter(object):
+    """Forwards to a rule only the instances whose name contains `part` (used to run one half of a shared rule)."""
 
-    R1 = report.rule('C15.D1', 'eq/hash coherence per node class', floor=8)
-    eq_rule(ctx, R1, mod, M)
+    def __init__(self, rule, part):
+        self.rule, self.part = rule, part
 
-    R2 = report.rule('C15.D2', 'copy/visit completeness per node class', floor=16)
+    def ok(self, inst, **kw):
+        if self.part in inst:
+            self.rule.ok(inst, **kw)
+
+    def violation(self, inst, key, *a, **kw):
+        if self.part in inst or self.part in key:
+            self.rule.violation(inst, key, *a, **kw)
+
+    def note(self, *a, **kw):
+        self.rule.note(*a, **kw)
+
+
+def copy_visit_rule(ctx, R2, mod=None, M=None, only=None):
+    """copy() / visit() completeness per node class (shared with C13: the simplifier is a visit with a callback, so a visit that drops or keeps a
+    stale sub-expression changes what expr_simp returns).  only = 'visit' records the visit part alone."""
+    mod = mod or ctx.mod('expression')
+    M = M or Matrix(mod)
+    if only == 'visit':
+        R_all, R2 = R2, _Filter(R2, '.visit')
     # flags stored on freshly constructed nodes outside expression.py (the evaluator marks unknown memory cells as terminal)
     dynamic_flags = {}
     for mname in ('eval_abs', 'expr_helper', 'emul_helper'):
@@ -330,6 +337,28 @@ def run(ctx, report):
     else:
         R2.violation('visit_chk', 'visit_chk', 'visit_chk no longer applies the callback to the visited node', where(mod, vc))
 
+
+
+def run(ctx, report):
+    mod = ctx.mod('expression')
+    hlp = ctx.mod('expr_helper')
+    M = Matrix(mod)
+    report.explanation = (
+        'Field/method matrix over the 8 IR node classes of expression.py: D1 __hash__ fields are a subset of __eq__ fields, '
+        '__eq__ compares every constructor field (metadata table excepted) pairwise with the same field of the other operand and '
+        'tests the class, __ne__ is its negation; D2 copy() and visit() rebuild from all fields, recurse into every '
+        'sub-expression field, copy() never returns self, every visit is wrapped by visit_chk; D3 replace_expr/copy go through visit; '
+        'D4 every operand-reordering call site is control-dependent on membership in a list of commutative operators.')
+    report.not_decided = 'value preservation for concrete valuations (behaviour of the callbacks), sharing inside non-node containers.'
+    report.analysed['matrix'] = dict((c, {'fields': M.fields[c], 'expr_fields': M.expr_fields(c), 'eq_fields': M.eq_fields(c)})
+                                     for c in NODE_CLASSES)
+
+    R1 = report.rule('C15.D1', 'eq/hash coherence per node class', floor=8)
+    eq_rule(ctx, R1, mod, M)
+
+    R2 = report.rule('C15.D2', 'copy/visit completeness per node class', floor=16)
+    copy_visit_rule(ctx, R2, mod, M)
+
     R3 = report.rule('C15.D3', 'substitution and copy of the base class go through visit', floor=2)
     for name in ('replace_expr', 'canonize'):
         for c in NODE_CLASSES:
@@ -411,6 +440,18 @@ def _field_of(expr, base, fields):
 def _check_ctor_call(R, mod, c, meth, call, M):
     """Keyword arguments of a rebuilding constructor call must carry the same-named field
     (e.g. segm = None in ExprMem.copy would silently drop the segment)."""
+    # positional arguments: the parameter of __init__ at that position names the field
+    init = mod.method(c, '__init__', required=False)
+    if init is not None:
+        params = [a.arg for a in init.args.args][1:]
+        for i, a in enumerate(call.args):
+            if i < len(params) and params[i] in M.fields[c] and not isinstance(a, ast.Starred):
+                names = set(n.id for n in ast.walk(a) if isinstance(n, ast.Name)) | set(n.attr for n in ast.walk(a) if isinstance(n, ast.Attribute))
+                other = [f for f in M.fields[c] if f != params[i] and f in names]
+                if params[i] not in names and other:
+                    R.violation('%s.%s' % (c, meth), '%s.%s:pos%d:%s=%s' % (c, meth, i, params[i], norm(a)),
+                                '%s.%s passes %s as argument %d, which is the parameter %s of %s.__init__: the fields %s and %s are exchanged in the rebuilt node'
+                                % (c, meth, norm(a), i + 1, params[i], c, params[i], other[0]), where(mod, call), witness='eax.copy() != eax (is_reg and is_term swapped)')
     for k in call.keywords:
         if k.arg in M.fields[c]:
             names = set(n.id for n in ast.walk(k.value) if isinstance(n, ast.Name)) | \
@@ -422,6 +463,7 @@ def _check_ctor_call(R, mod, c, meth, call, M):
 
 
 MUTANTS = [
+    ('id-copy-positional-swap', 'miasmx/expression/expression.py', "        return ExprId(self.name, size=self.size, is_term=self.is_term, is_reg=self.is_reg)", "        return ExprId(self.name, self.size, self.is_reg, self.is_term)", 'C15.D2'),
     ('mem-copy-drops-term', 'miasmx/expression/expression.py', "        m.is_term = self.is_term\n", "", 'C15.D2'),
     ('int-eq-no-width', 'miasmx/expression/expression.py', "        return self.arg == a.arg and self.arg.size == a.arg.size", "        return self.arg == a.arg", 'C15.D1'),
     ('op-eq-zip', 'miasmx/expression/expression.py', "        if len(self.args) != len(a.args):\n            return False\n        for i, x in enumerate(self.args):\n            if not x == a.args[i]:\n                return False\n        return True\n    def __hash__(self):\n        h = hash(self.op)",
